@@ -15,6 +15,16 @@ CHECKS = {
          "Every (perm, orbits, generators) triple returned for all classes n <= 8, ~100 families with analytically known |Aut|, all ordered set partitions as vertex classes for all classes n <= 4 (n = 5 thorough) and seeded cases is judged: generators are automorphisms, orbits equal the true orbit partition, |<gens>| = |Aut|; histories of 50-300 graphs through one reused storage/partition pair must equal fresh calls exactly. Found and drove the repair of three vertex-class defects. Holds on what was observed; |Aut| oracle bounds the sizes.",
          "Trusts iso.Automorphisms / iso.GroupOrder (validated on known groups at start-up and against ~90 table values in the harness tests).",
          "DESIGN.md section 4 C02"),
+ "C03": ("exploration",
+         "runtime monitoring: complete Value() logs per shard and predicate placement, offline exactly-once checker (invariant buckets + isomorphism search, Polya counts, harness-side predicate filter)",
+         "The whole output of search.All(n,a,m) is recorded for n = 0..8 with m in {1,2,3,4,5,7,16} (n = 9 with m in {1,4}; thorough: all seven m at n = 9 and n = 10 with m = 1 and 16) and of WithPruning for 11 hereditary predicates as preprune / prune / both (n <= 8, 9 thorough). Offline: no two values of a configuration isomorphic (decided by the harness's own isomorphism search, so a duplicate cannot cancel a miss), total = Polya count, pruned outputs = filtered class list, every value well formed. Holds on what was observed; n >= 11 out of reach.",
+         "Trusts iso.Invariant/Isomorphic, the Polya counts and the harness predicates.",
+         "DESIGN.md section 4 C03"),
+ "C04": ("fault_enumeration",
+         "runtime monitoring over enumerated interruption points: every save position of every configuration, Save/Load, original and loaded copy advanced alternately and compared with the uninterrupted log",
+         "For all (n <= 7, a, m in {1,2,3}) and three predicate placements EVERY save position k = 0..len(output)+1 (incl. before the first Next and after exhaustion) is exercised: a fresh iterator is advanced k times, saved and loaded, then both are stepped alternately and must reproduce the rest of the uninterrupted log in order and then stay exhausted; chains of three save/load generations at seeded positions; thorough adds n = 8 (every k) and n = 9 (seeded k).",
+         "Trusts the uninterrupted run as reference (its content is judged by C03) and the harness graph6 writer.",
+         "DESIGN.md section 4 C04"),
  "C05": ("exploration",
          "runtime monitoring: model-based lock-step oracle over edit histories on DenseGraph and SparseGraph (bounded-exhaustive + seeded), all observers after every operation",
          "Every operation of every generated edit history is applied to a DenseGraph, a SparseGraph and a bit-matrix model; after each operation N, M, IsEdge (all ordered pairs), Neighbours and Degrees of every live graph (sources, copies, induced subgraphs) are compared with the models, so aliasing and stale cached counts surface at the first operation that exposes them. All histories of length <= 4 (5 thorough) from 8 small start graphs are enumerated; seeded histories reach n = 12 (40 thorough). Holds on what was observed.",
